@@ -289,12 +289,15 @@ def run_dates(ctx, bi):
                classify=classify, nontrivial=lambda case, outs: is_num(outs[0]) and outs[0] != 0, on_result=on_result)
 
 
-def plan(tier, seed):
+def _plan(tier, seed):
     n = 6 if tier == 'quick' else 160
     return [{'k': k, 'n': n} for k in range(16)] + [{'dates': k, 'n': 2 if tier == 'quick' else 40} for k in range(4)]
 
 
 def run_shard(shard, ctx):
+    if isinstance(shard, dict) and 'mixed' in shard:
+        from ..mixed import run_mixed
+        return run_mixed(ctx, ID, shard['n'])
     if 'replay' in shard:
         return replay_case(ctx, ID, shard['replay'], exact=False, classify=classify)
     if 'dates' in shard:
@@ -310,3 +313,8 @@ def finish(r, tier, seed):
     extra = flag_consistency_verdict(r, ID)
     return {**extra, 'functions': {k: v for k, v in r.counters.items() if k.startswith('fn:')},
             'silent_clauses_used': {k: v for k, v in r.counters.items() if k.startswith('silent_clause:')}}
+
+
+def plan(tier, seed):
+    # 'mixed': nests over the whole function set that use at least one function of this property (vf/mixed.py)
+    return _plan(tier, seed) + [{'mixed': k, 'n': 3 if tier == 'quick' else 60} for k in range(3 if tier == 'quick' else 8)]
